@@ -453,6 +453,31 @@ pub fn run_live(rep: &mut Report, thorough: bool) {
             }
             drop(dumper);
         }
+        // The caller's vector and the one procfs serves can disagree (the kernel never updates the
+        // copy it saved at exec, e.g. after the target moved its vDSO). A field the caller supplied
+        // is the value in force - only fields left 0 are completed from procfs - so the mapping that
+        // starts at the address the CALLER reported is the one named as the gate library, whichever
+        // of the other fields are supplied.
+        let alt = b.sentinels[0].stack_base;
+        for mask in [4u32, 5, 6, 12, 7, 13, 14, 15] {
+            let info = DirectAuxvDumpInfo {
+                program_header_count: if mask & 1 != 0 { m.at_phnum } else { 0 },
+                program_header_address: if mask & 2 != 0 { m.at_phdr } else { 0 },
+                linux_gate_address: alt,
+                entry_address: if mask & 8 != 0 { m.at_entry } else { 0 },
+            };
+            let Ok(dumper) = PtraceDumper::new_report_soft_errors(t.pid, std::time::Duration::from_secs(10), info.into(), error_graph::strategy::DontCare) else {
+                rep.violation("C13 live: dumper could not be created on a healthy target", json!({"supplied_mask": mask, "gate": "differs from procfs"}));
+                continue;
+            };
+            rep.case(crate::rng::fnv(format!("live-alt/{mask}").as_bytes()), true);
+            rep.count("live_lists_with_a_caller_gate_address_that_differs_from_procfs", 1);
+            let name = dumper.mappings.iter().find(|mp| mp.start_address as u64 == alt).and_then(|g| g.name.as_ref().map(|n| n.to_string_lossy().into_owned()));
+            if name.as_deref() != Some("linux-gate.so") {
+                rep.violation("C13 live: the mapping at the vDSO address the caller reported is not named as the Linux gate library", json!({"supplied": {"phnum": mask & 1 != 0, "phdr": mask & 2 != 0, "gate": true, "entry": mask & 8 != 0}, "name": name, "caller_gate": format!("{alt:#x}"), "procfs_gate": format!("{:#x}", m.at_sysinfo_ehdr)}));
+            }
+        }
     }
     rep.require("live_mapping_lists_checked", 16);
+    rep.require("live_lists_with_a_caller_gate_address_that_differs_from_procfs", 8);
 }
